@@ -383,6 +383,45 @@ func checkModePlumbing(c *check.Ctx) {
 	m := c.M
 	roPkg := m.Obj.Ro
 	info := roPkg.TypesInfo
+	// newSubscriberImpl: the subscriber literal takes mode, mu, backpressure and destination from the parameters
+	if fd := load.FuncDeclOf(roPkg, "newSubscriberImpl"); fd != nil {
+		params := map[types.Object]bool{}
+		for _, prm := range model.FlattenParams(info, fd.Type.Params) {
+			if prm != nil {
+				params[prm] = true
+			}
+		}
+		got := map[string]bool{}
+		ast.Inspect(fd.Body, func(n ast.Node) bool {
+			cl, ok := n.(*ast.CompositeLit)
+			if !ok {
+				return true
+			}
+			if nn := load.NamedOf(info.TypeOf(cl)); nn == nil || nn.Obj().Name() != "subscriberImpl" {
+				return true
+			}
+			for _, el := range cl.Elts {
+				if kv, ok := el.(*ast.KeyValueExpr); ok {
+					if k, ok := kv.Key.(*ast.Ident); ok {
+						if id, ok := ast.Unparen(kv.Value).(*ast.Ident); ok && params[objOf(info, id)] {
+							got[k.Name] = true
+						}
+					}
+				}
+			}
+			return true
+		})
+		for _, f := range []string{"mode", "mu", "backpressure", "destination"} {
+			key := "ro.newSubscriberImpl/stores-" + f
+			if got[f] {
+				c.OK(key, fd.Pos(), "field %s is initialised from the constructor's parameter", f)
+			} else {
+				c.Violation(key, fd.Pos(), "the subscriber literal does not initialise field %s from the constructor's parameter: the subscriber would report/use the zero value (mode Safe, nil mutex, blocking, no destination) whatever was requested", f)
+			}
+		}
+	} else {
+		c.Undecided("ro.newSubscriberImpl/stores-mode", roPkg.Syntax[0].Pos(), "anchor not found")
+	}
 	// NewObservableWithConcurrencyMode: composite literal field mode: <param mode>
 	if fd := load.FuncDeclOf(roPkg, "NewObservableWithConcurrencyMode"); fd != nil {
 		ok := false
@@ -604,12 +643,16 @@ func ruleLockRegion() check.Rule {
 				if !leak {
 					c.OK(fmt.Sprintf("ro.subscriberImpl.%s/unlock", fd.Name.Name), fd.Pos(), "every exit (%d) has released the producer lock", len(res.Exits))
 				}
-				// TryLock under the drop test
+				// TryLock under the drop test, and never for terminal notifications
 				for _, op := range res.Ops {
 					if op.Kind != "TryLock" {
 						continue
 					}
 					key := fmt.Sprintf("ro.subscriberImpl.%s/trylock", fd.Name.Name)
+					if notifKind(fd.Name.Name) > 0 {
+						c.Violation(key, op.Call.Pos(), "a terminal notification takes the producer lock with TryLock: under contention the Error/Complete is dropped and never reaches the subscriber")
+						continue
+					}
 					guarded := false
 					for cn := ast.Node(op.Call); cn != nil && cn != ast.Node(fd); cn = m.Parent(p, cn) {
 						if ifs, ok := m.Parent(p, cn).(*ast.IfStmt); ok && cn == ifs.Body {
